@@ -13,7 +13,7 @@
      - inside the 9-filler: as in the ASCII case (the filler is ASCII). *)
 From Coq Require Import List Lia ZArith Bool NArith.
 From ACH Require Import TamperText TamperTextFacts FramingFacts FramingBytes FileStructFacts TruncFacts TamperFacts TruncBytes.
-From ACH Require Import Utf8Enc RuneFacts TruncUtf8 Utf8Prefix.
+From ACH Require Import Utf8Enc RuneFacts TruncUtf8 Utf8Prefix TruncCtl NumFacts.
 Import ListNotations.
 Local Open Scope nat_scope.
 
@@ -619,3 +619,25 @@ Proof.
 Qed.
 
 End VerdictU.
+
+(* the accepted cut of an ASCII control record of a file with arbitrary UTF-8 records:
+   TruncCtl.truncated_ctl_identical without ascii_records *)
+Lemma uline_ascii_good l : uline l -> asciib l = true -> good_line l.
+Proof.
+  intros (_ & R & Hn & Hb) Ha. rewrite (rune_count_ascii l Ha) in R. repeat split; assumption.
+Qed.
+
+Theorem truncated_ctl_identical_u f c :
+  utf8_records f -> asciib (f_ctl f) = true -> 1 <= c < 94 -> digitsb (column (f_ctl f) 13 21) = true ->
+  fc_count (fl_ctl (skel f)) <> 0%Z ->
+  skel (with_ctl f (cut_line (f_ctl f) c)) = skel f ->
+  parse (fctl_layout (adv_file f)) (cut_line (f_ctl f) c) = parse (fctl_layout (adv_file f)) (f_ctl f).
+Proof.
+  intros Hg Ha Hc Hd Hcnt Hsk.
+  assert (Hgl : good_line (f_ctl f)).
+  { apply uline_ascii_good; [|exact Ha]. unfold utf8_records in Hg. rewrite Forall_forall in Hg. apply Hg.
+    unfold record_lines. apply in_cons, in_or_app. right. now left. }
+  apply (f_equal fl_ctl) in Hsk. unfold skel in Hsk, Hcnt. cbn [fl_ctl with_ctl f_batches f_ctl] in Hsk, Hcnt.
+  fold (adv_file f) in Hsk.
+  exact (proj2 (cut_ctl_identical (adv_file f) (f_ctl f) c Hgl Hc Hd Hsk Hcnt)).
+Qed.
